@@ -384,6 +384,15 @@ U("dfcc_loop_cfg_print_pff_indent_twin", harness="harness/dfcc.c", entry="h_dfcc
   label="bounded(quantifier-free twin of dfcc_loop_cfg_print_pff_indent: option arrays of at most 3 entries; SAT back end, yields counterexamples)",
   props=["C19", "C16", "C02"], cost=5)
 
+for _f, _e in (("cfg_print_indent", "h_dfcc_print_indent"), ("cfg_print", "h_dfcc_print")):
+    U("dfcc_modular_" + _f, harness="harness/dfcc.c", entry=_e, func=_f, style="S1", defs={"quick": ["-DCFGV_DFCC_PRINTCFG"]}, cbmc=NOOOM, backend="z3",
+      dfcc={"enforce": [_f], "replace": ["cfg_print_pff_indent"]}, expect_canary=False, no_slice=False, require_obligations=[r"postcondition", r"precondition"],
+      label="proof (modular: enforced against its own contract with the call to cfg_print_pff_indent REPLACED by contract::cfg_print_pff_indent - precondition asserted at the call site, postcondition assumed, body not looked at; SMT back end z3)",
+      props=["C19", "C02"], cost=5)
+    U("dfcc_modular_" + _f + "_twin", harness="harness/dfcc.c", entry=_e, func=_f, style="S1", defs={"quick": ["-DCFGV_DFCC_PRINTCFG", "-DCFGV_TWIN"]}, cbmc=NOOOM,
+      dfcc={"enforce": [_f], "replace": ["cfg_print_pff_indent"]}, expect_canary=False, no_slice=False, require_obligations=[r"postcondition", r"precondition"],
+      label="bounded(quantifier-free twin of dfcc_modular_%s: option arrays of at most 3 entries; SAT back end, yields counterexamples)" % _f, props=["C19", "C02"], cost=5)
+
 U("dfcc_modular_cfg_num", harness="harness/dfcc.c", entry="h_dfcc_num", func="cfg_num", style="S1", defs={"quick": []}, cbmc=NOOOM, backend="z3",
   dfcc={"enforce": ["cfg_num"], "replace": ["cfg_numopts"]}, expect_canary=False, no_slice=False, require_obligations=[r"postcondition", r"precondition"],
   label="proof (contract of cfg_num enforced with the call to cfg_numopts replaced by contract::cfg_numopts: caller checked against the callee's contract, not its body; option arrays up to 1024; z3)",
